@@ -295,6 +295,33 @@ func streamConc(c *ctx) {
 	} else {
 		fail("conc", "NewValidator failed", "validator", err, "a validator")
 	}
+	// ---- one validator that follows the system clock (FixedNow unset), every kind of decision: accepted, expired, not
+	// yet valid, wrong issuer, wrong audience, issued in the future, no expiration; struct and map forms
+	if vs, err := cwt.NewValidator(&cwt.ValidatorOpts{ExpectedIssuer: "iss", ExpectedAudience: "aud", ClockSkew: time.Minute, ExpectIssuedInThePast: true}); err == nil {
+		u := uint64(now.Unix())
+		type tok struct {
+			c    *cwt.Claims
+			m    cwt.ClaimsMap
+			want bool
+		}
+		toks := []tok{
+			{&cwt.Claims{Issuer: "iss", Audience: "aud", Expiration: u + 100000}, cwt.ClaimsMap{iana.CWTClaimIss: "iss", iana.CWTClaimAud: "aud", iana.CWTClaimExp: u + 100000}, true},
+			{&cwt.Claims{Issuer: "iss", Audience: "aud", Expiration: u - 100000}, cwt.ClaimsMap{iana.CWTClaimIss: "iss", iana.CWTClaimAud: "aud", iana.CWTClaimExp: u - 100000}, false},
+			{&cwt.Claims{Issuer: "iss", Audience: "aud", Expiration: u + 100000, NotBefore: u + 50000}, cwt.ClaimsMap{iana.CWTClaimIss: "iss", iana.CWTClaimAud: "aud", iana.CWTClaimExp: u + 100000, iana.CWTClaimNbf: u + 50000}, false},
+			{&cwt.Claims{Issuer: "other", Audience: "aud", Expiration: u + 100000}, cwt.ClaimsMap{iana.CWTClaimIss: "other", iana.CWTClaimAud: "aud", iana.CWTClaimExp: u + 100000}, false},
+			{&cwt.Claims{Issuer: "iss", Audience: "else", Expiration: u + 100000}, cwt.ClaimsMap{iana.CWTClaimIss: "iss", iana.CWTClaimAud: "else", iana.CWTClaimExp: u + 100000}, false},
+			{&cwt.Claims{Issuer: "iss", Audience: "aud", Expiration: u + 100000, IssuedAt: u + 50000}, cwt.ClaimsMap{iana.CWTClaimIss: "iss", iana.CWTClaimAud: "aud", iana.CWTClaimExp: u + 100000, iana.CWTClaimIat: u + 50000}, false},
+			{&cwt.Claims{Issuer: "iss", Audience: "aud"}, cwt.ClaimsMap{iana.CWTClaimIss: "iss", iana.CWTClaimAud: "aud"}, false},
+			{&cwt.Claims{Issuer: "iss", Audience: "aud", Expiration: u + 100000, NotBefore: u - 50000, IssuedAt: u - 50000}, cwt.ClaimsMap{iana.CWTClaimIss: "iss", iana.CWTClaimAud: "aud", iana.CWTClaimExp: u + 100000, iana.CWTClaimNbf: u - 50000, iana.CWTClaimIat: u - 50000}, true},
+		}
+		par("validator on the system clock, mixed tokens", func(g, i int) {
+			t := toks[(g+i)%len(toks)]
+			e1, e2 := vs.Validate(t.c), vs.ValidateMap(t.m)
+			if (e1 == nil) != t.want || (e2 == nil) != t.want {
+				fail("conc", "a shared validator following the system clock decides differently under concurrency", fmt.Sprintf("token %d of %d", (g+i)%len(toks), len(toks)), fmt.Sprint(e1, e2), fmt.Sprintf("accepted=%v", t.want))
+			}
+		})
+	}
 	// ---- a validator is independent of the options variable it was built from: the caller goes on to reuse that
 	// variable for another validator while the first one is shared
 	{
